@@ -49,7 +49,8 @@ def run(tier):
                                  f"(status {p.returncode}): " + p.stderr.decode()[-200:].strip(),
                                  {"kind": "codec-abort", "detail": d})
                     return vd.finish()
-                raise vlib.ToolError("vh_lib codec-cases failed: " + p.stderr.decode()[-2000:])
+                vlib.harness_died(vd, "vh_lib codec-cases", p)
+                return vd.finish()
             nonconf = 0
             for line in open(opath):
                 d = json.loads(line)
@@ -71,7 +72,8 @@ def run(tier):
         tpath = os.path.join(work, "rand.ndjson")
         p = vlib.run_cmd([bins["vh_lib"], "codec-random", str(n), tpath, str(vlib.seed()), copia, os.path.join(work, "cli")], timeout=3000)
         if p.returncode != 0:
-            raise vlib.ToolError("vh_lib codec-random failed: " + p.stderr.decode()[-2000:])
+            vlib.harness_died(vd, "vh_lib codec-random", p)
+            return vd.finish()
         r = tlc("CodecTrace", "CodecTrace.cfg", workers=1, timeout=1500, env_extra={"TRACE": tpath}, depth_first=True)
         res = r.payloads.get("RESULT", [])
         lines = open(tpath).read().splitlines()
